@@ -331,6 +331,12 @@ class Model:
         return None
 
     def local_imports(self, fi: FuncInfo) -> Dict[str, str]:
+        cache = self.__dict__.setdefault("_li_cache", {})
+        if fi.qual not in cache:
+            cache[fi.qual] = self._local_imports(fi)
+        return cache[fi.qual]
+
+    def _local_imports(self, fi: FuncInfo) -> Dict[str, str]:
         d: Dict[str, str] = {}
         f: Optional[FuncInfo] = fi
         chain = []
@@ -344,6 +350,13 @@ class Model:
         return d
 
     def resolve_dotted(self, mi: ModuleInfo, fi: Optional[FuncInfo], name: str) -> str:
+        cache = self.__dict__.setdefault("_rd_cache", {})
+        k = (mi.name, fi.qual if fi else None, name)
+        if k not in cache:
+            cache[k] = self._resolve_dotted(mi, fi, name)
+        return cache[k]
+
+    def _resolve_dotted(self, mi: ModuleInfo, fi: Optional[FuncInfo], name: str) -> str:
         """Resolve a dotted name written in module mi (inside fi) to a canonical dotted target:
         'func_adl.util_ast.as_ast', 'ast.Call', 'copy.copy', 'typing.Any', or the name itself."""
         head, _, rest = name.partition(".")
@@ -408,6 +421,12 @@ class Model:
         return out
 
     def mro(self, ci: ClassInfo) -> List[Union[ClassInfo, str]]:
+        cache = self.__dict__.setdefault("_mro_cache", {})
+        if ci.qual not in cache:
+            cache[ci.qual] = self._mro(ci)
+        return cache[ci.qual]
+
+    def _mro(self, ci: ClassInfo) -> List[Union[ClassInfo, str]]:
         """Linearised (depth-first, left-to-right, de-duplicated) — adequate for the
         single-inheritance chains of this package."""
         out: List[Union[ClassInfo, str]] = []
